@@ -563,9 +563,9 @@ Section Backoff.
     pose proof (pp_front_shape2 now d tmo pin d3 t3 pl e12 I Hp E) as FS2.
     destruct S3 as (_ & ET & _).
     destruct (front_bound now d d3 FS ET HT Hs) as (Hs3 & _).
-    pose proof (process_action_bound rmatch compress sc (Nat.mul 64 64) now d3 store t3 pl e12 I3 P3 R3 ltac:(lia) Hs3) as HB.
-    pose proof (process_action_pot (Nat.mul 64 64) now d3 store t3 pl e12 I3 P3 R3 ltac:(lia) Hs3) as HP.
-    destruct (process_action rmatch compress sc (Nat.mul 64 64) now d3 store t3 pl e12) as [[[[[d4 st4] t4] pl4] e4]| | | |]; try contradiction; [|exact Logic.I].
+    pose proof (process_action_bound rmatch compress sc (pa_fuel d3) now d3 store t3 pl e12 I3 P3 R3 ltac:(lia) Hs3) as HB.
+    pose proof (process_action_pot (pa_fuel d3) now d3 store t3 pl e12 I3 P3 R3 ltac:(lia) Hs3) as HP.
+    destruct (process_action rmatch compress sc (pa_fuel d3) now d3 store t3 pl e12) as [[[[[d4 st4] t4] pl4] e4]| | | |]; try contradiction; [|exact Logic.I].
     destruct HG as [SP _]. destruct HB as (S4 & HB). split; [exact S4|].
     pose proof (tg_fifo _ _ _ _ _ _ _ _ _ SP) as FF. split; [exact FF|].
     destruct (queued d4) as [|c0 cs] eqn:Q4; [left; reflexivity|right].
